@@ -456,3 +456,18 @@ let rec abuild t = function
 | e :: r -> (match abuild1 t e with
              | Some t' -> abuild t' r
              | None -> None)
+
+(** val apath_prefix : apath -> apath -> bool **)
+
+let rec apath_prefix p q =
+  match p with
+  | [] -> true
+  | x :: p' ->
+    (match q with
+     | [] -> false
+     | y :: q' -> (&&) (list_eqb x y) (apath_prefix p' q'))
+
+(** val apath_proper_prefix : apath -> apath -> bool **)
+
+let apath_proper_prefix p q =
+  (&&) (apath_prefix p q) (negb (apath_eqb p q))
